@@ -465,7 +465,7 @@ def r104(facts, res):
                 res.bad(R, key, loc_of(b, sw), 'conditional on the token being new to the token set: %s - the result now depends on which declaration mentions the name first' % '; '.join(offenders))
             else:
                 res.ok(R, key, loc_of(b, sw), 'only the parallel span table is extended when the name is new')
-    res.floor(R, 'token-set insertions in the Yacc parser', n, 5)
+    res.floor(R, 'token-set insertions in the Yacc parser', n, 3)
 
 
 def r106(facts, res):
@@ -514,7 +514,7 @@ def r106(facts, res):
         for ib, ts in new_regions:
             if not any(b.dominates(ts, pb) for pb, _pt in pushes):
                 res.bad(R, 'span-push-missing:%s@%d' % (strip_generics(b.path).split('::')[-1], ib), loc_of(b, ib), 'a new token is added to the token set but no span is pushed for it')
-    res.floor(R, 'pushes onto the token span table', n, 4)
+    res.floor(R, 'pushes onto the token span table', n, 3)
 
 
 def r105(facts, res):
@@ -636,7 +636,7 @@ def r105(facts, res):
         res.bad(R, 'name-spans', '', '; '.join(sorted(set(badc))[:3]))
     else:
         res.ok(R, 'name-spans', '', '%d span constructions end at the cursor a name/token parser returned and start where it was started' % nsp)
-    res.floor(R, 'spans built from a name/token parser\'s cursor', nsp, 4)
+    res.floor(R, 'spans built from a name/token parser\'s cursor', nsp, 3)
 
 
 def run(facts, res):
